@@ -31,12 +31,15 @@ def gen_C09(rng, tier):
     alphabet = [(n, c) for n in names for c in codes]
     maxlen = 3 if tier == "quick" else 4
 
-    def render(seq, consts_at=()):
+    PARAMS = ["", "int x", "in String s", "int x, int y", "in int[] v", "long x"]
+
+    def render(seq, consts_at=(), params=None):
         ms = []
         for i, (n, c) in enumerate(seq):
             if i in consts_at:
                 ms.append(f"const int K{i}={i};")
-            ms.append(f"void {n}()" + (f"={c}" if c is not None else "") + ";")
+            ps = params[i] if params else ""
+            ms.append(f"void {n}({ps})" + (f"={c}" if c is not None else "") + ";")
         return iface(ms)
     k = 0
     for L in range(1, maxlen + 1):
@@ -52,7 +55,16 @@ def gen_C09(rng, tier):
             c = rng.choice([None, None, "1", "2", "3", "007", "7", "0", "00", "4294967295", "4294967296", "99999999999"])
             seq.append((n, c))
         consts = {j for j in range(L) if rng.random() < 0.2}
-        cases.append(nm(f"r{i}", [("f", render(seq, consts))]))
+        # "overloads": the same name with different parameter lists is still the same name
+        params = [rng.choice(PARAMS) for _ in range(L)] if rng.random() < 0.5 else None
+        cases.append(nm(f"r{i}", [("f", render(seq, consts, params))]))
+    # every sequence of length <= 2 once more with differing parameter lists
+    for L in (2, 3):
+        for seq in itertools.product(alphabet, repeat=L):
+            if L == 3 and rng.random() > (0.15 if tier == "quick" else 1.0):
+                continue
+            cases.append(nm(f"ov{k}", [("f", render(seq, (), [PARAMS[j % len(PARAMS)] for j in range(L)]))]))
+            k += 1
     return cases
 
 
